@@ -7,14 +7,19 @@ end (`order_is_sort`, `dual_rows_are_node_faces`, `model_meets_discrete_spec`), 
 sign of n.(t0 x d) (`side_sign_ccw`), the data side is the identity with swapped dimension names.
 
 Tie: `Grid.get_dual()` / `UxDataArray.get_dual()` of the real code are run on generated closed and
-partial meshes (valence 3..8, nodes at the poles and on the antimeridian, random numbering), JIT on and
-(in a child process) off.  The Lean driver evaluates on the implementation's own output
+partial meshes (valence 3..8 and more, coarse and fine, nodes at the poles and on the antimeridian,
+random numbering), with `construct_faces` / `_order_nodes` first interpreted (their `.py_func`, so an
+out-of-range write raises instead of corrupting memory) and then JIT-compiled; both tables must agree.
+The Lean driver evaluates on the implementation's own output
   * the discrete clauses `CountOK`, `RowsOK`,
   * the ring clause (consecutive corners share an edge ending at the node; C03's incidence model),
   * the counter-clockwise clause (polynomial sign tests on the coordinates, independent of arccos),
 the last two only at nodes where the mesh geometry makes them well defined (centres angularly ordered
-like the face ring, no near tie) — both decided by the Lean driver, counted in the evidence.
-The model (`Dual.constructDual`, run at Float by the driver) must also reproduce the table exactly.
+like the face ring, no near tie, at most one gap) — decided by the Lean driver, counted in the evidence.
+The model of the repaired algorithm (`Dual.constructDual … true`, run at Float by the driver) must also
+reproduce the table exactly; the model of the code as found in the snapshot (`… false`) is kept in the
+driver and is reported next to every failure (`equals_model_of_code_as_found`).
+corpus/C18/antiprism5-star.json is the minimised failure of the snapshot (fixed by c1960934).
 """
 
 from __future__ import annotations
@@ -28,6 +33,7 @@ from .common import INT_FILL, enc_floats, enc_ints, enc_pairs, enc_rows
 
 EPS = 1e-9  # near-tie margin of the sign tests (relative)
 SPEC_MAX_NODES = 450
+INTERP_MAX = 450  # meshes up to this many nodes are also run with the anchored functions interpreted
 DIMCODE = {"n_node": 0, "n_edge": 1, "n_face": 2}
 
 
@@ -195,6 +201,19 @@ def judge_grid(ctx, g, inp, key, m=None, shrink=True, closed=None):
     """Grid.get_dual() of the real code, judged by the Lean spec; returns (dual grid, table) or None"""
     d = ctx.driver
     closed = bool(inp.get("closed")) if closed is None else closed
+    T = None
+    if int(g.n_node) <= INTERP_MAX:
+        with interpreted() as it:
+            if it.ok:
+                try:
+                    T = [[int(x) for x in r] for r in g.get_dual().face_node_connectivity.values]
+                except Exception as e:
+                    ctx.case(key, sample=None)
+                    ctx.fail(f"C18/Grid.get_dual/raises/{type(e).__name__}/interpreted",
+                             f"Grid.get_dual with construct_faces/_order_nodes interpreted raises {type(e).__name__}: {e}", dict(inp, jit="off"))
+                    return None
+            else:
+                ctx.hit("jit-off:functions-already-interpreted")
     try:
         dual = g.get_dual()
         D = [[int(x) for x in r] for r in dual.face_node_connectivity.values]
@@ -202,6 +221,13 @@ def judge_grid(ctx, g, inp, key, m=None, shrink=True, closed=None):
         ctx.case(key, sample=None)
         ctx.fail(f"C18/Grid.get_dual/raises/{type(e).__name__}", f"Grid.get_dual raises {type(e).__name__}: {e}", inp)
         return None
+    if T is not None:
+        ctx.hit("jit-off-compared")
+        if T != D:
+            ctx.case(key, sample=None)
+            ctx.fail("C18/Grid.get_dual/jit-off-differs", "get_dual gives a different table when construct_faces/_order_nodes are interpreted",
+                     dict(inp, jit="off"), dict(jit_off=T), dict(jit_on=D), ["jit"])
+            return None
     NF, FE, N, n_edge, E = tables(g)
     nodes, cents = xyz_of(g, "node"), xyz_of(g, "face")
     val = [sum(1 for x in r if x != INT_FILL) for r in NF]
@@ -284,24 +310,33 @@ def judge_grid(ctx, g, inp, key, m=None, shrink=True, closed=None):
     return dual, D
 
 
-def judge_data(ctx, g, dualD, inp, key, closed, all3):
+def judge_data(ctx, g, dualD, inp, key, closed, all3, forced=None):
     """UxDataArray.get_dual(): dims swapped, values unchanged and unpermuted, same dual connectivity"""
     import uxarray as ux
 
     rng, d = ctx.rng, ctx.driver
     dual, D = dualD
-    for centre in ("n_face", "n_node"):
+    for centre in ("n_face", "n_node") if forced is None else (forced["data_centre"],):
         n = int(g.n_face if centre == "n_face" else g.n_node)
-        lead = [rng.randint(1, 3) for _ in range(rng.choice([0, 0, 1, 2]))]
-        other = [f"t{i}" for i in range(len(lead))]
-        pos = rng.randrange(len(lead) + 1)  # the element dimension anywhere
-        dims = other[:pos] + [centre] + other[pos:]
-        shape = lead[:pos] + [n] + lead[pos:]
-        vals = np.array([rng.uniform(-5, 5) for _ in range(int(np.prod(shape)))]).reshape(shape)
-        if rng.random() < 0.3:
-            vals = np.round(vals).astype(np.int64)
+        if forced is None:
+            lead = [rng.randint(1, 3) for _ in range(rng.choice([0, 0, 1, 2]))]
+            other = [f"t{i}" for i in range(len(lead))]
+            pos = rng.randrange(len(lead) + 1)  # the element dimension anywhere
+            dims = other[:pos] + [centre] + other[pos:]
+            shape = lead[:pos] + [n] + lead[pos:]
+            vals = np.array([rng.uniform(-5, 5) for _ in range(int(np.prod(shape)))]).reshape(shape)
+            if rng.random() < 0.3:
+                vals = np.round(vals).astype(np.int64)
+        else:
+            dims, shape = list(forced["dims"]), list(forced["shape"])
+            if "values" in forced:
+                vals = np.array(forced["values"], dtype=forced["dtype"]).reshape(shape)
+            else:
+                vals = np.array([rng.uniform(-5, 5) for _ in range(int(np.prod(shape)))]).reshape(shape).astype(forced["dtype"])
         uxda = ux.UxDataArray(vals.copy(), dims=dims, uxgrid=g, name="v")
         dinp = dict(inp, data_centre=centre, dims=dims, shape=shape, dtype=str(vals.dtype))
+        if vals.size <= 400:
+            dinp["values"] = vals.reshape(-1).tolist()
         judged = closed and all3 or centre == "n_face"
         ctx.case(key + (centre, tuple(dims), vals.tobytes().hex()[:48]), nontrivial=True)
         ctx.hit(f"data:{centre}:{'judged' if judged else 'observed-only(partial grid)'}")
@@ -338,7 +373,7 @@ def judge_data(ctx, g, dualD, inp, key, closed, all3):
             ctx.fail(f"C18/UxDataArray.get_dual/size/{centre}", f"data length along {swapped} differs from the dual grid's {swapped}", dinp, obs, None, ["dual_data_size"])
 
 
-def judge(ctx, m, tag, data=True):
+def judge(ctx, m, tag, data=True, forced=None):
     import uxarray as ux
 
     inp = mesh_input(m, tag)
@@ -348,43 +383,32 @@ def judge(ctx, m, tag, data=True):
     if r is not None and data:
         NF = g.node_face_connectivity.values
         all3 = bool(((NF != INT_FILL).sum(axis=1) >= 3).all())
-        judge_data(ctx, g, r, inp, key, m.closed, all3)
+        judge_data(ctx, g, r, inp, key, m.closed, all3, forced=forced)
     return r
 
 
 # --------------------------------------------------------------------------------------
 # JIT off: the anchored functions run by the interpreter (their `.py_func`), swapped in at run time
 # (uxarray/grid/area.py resets numba's DISABLE_JIT at import, so the environment variable alone
-# does not reach dual.py)
+# does not reach dual.py).  The interpreted run comes FIRST: an out-of-range write raises IndexError
+# there instead of corrupting the process.
 # --------------------------------------------------------------------------------------
 
 
-def jit_off_pass(ctx, cases):
-    """same meshes with construct_faces/_order_nodes interpreted: tables must be identical"""
-    import uxarray as ux
-    from uxarray.grid import dual as dmod
+class interpreted:
+    def __enter__(self):
+        from uxarray.grid import dual as dmod
 
-    if not cases:
-        return
-    saved = (dmod.construct_faces, dmod._order_nodes)
-    if not all(hasattr(f, "py_func") for f in saved):
-        ctx.hit("jit-off:functions-already-interpreted")
-        return
-    try:
-        dmod.construct_faces, dmod._order_nodes = saved[0].py_func, saved[1].py_func
-        for inp, D in cases:
-            m = mesh_from_input(inp)
-            ctx.case(("jit-off", inp["table"], inp["lon"][:4]), nontrivial=True)
-            ctx.hit("jit-off-compared")
-            try:
-                T = [[int(x) for x in r] for r in meshes.to_grid(m, ux).get_dual().face_node_connectivity.values]
-            except Exception as e:
-                T = f"{type(e).__name__}: {e}"
-            if T != D:
-                ctx.fail("C18/Grid.get_dual/jit-off-differs", "get_dual gives a different table when construct_faces/_order_nodes are interpreted",
-                         dict(inp, jit="off"), dict(jit_off=T), dict(jit_on=D), ["jit"])
-    finally:
-        dmod.construct_faces, dmod._order_nodes = saved
+        self.dmod = dmod
+        self.saved = (dmod.construct_faces, dmod._order_nodes)
+        self.ok = all(hasattr(f, "py_func") for f in self.saved)
+        if self.ok:
+            dmod.construct_faces, dmod._order_nodes = self.saved[0].py_func, self.saved[1].py_func
+        return self
+
+    def __exit__(self, *a):
+        self.dmod.construct_faces, self.dmod._order_nodes = self.saved
+        return False
 
 
 # --------------------------------------------------------------------------------------
@@ -432,17 +456,13 @@ def run(ctx):
         "position is additionally compared with the normalised mean of the corners",
         "Float evaluation of the model uses the platform libm (arccos, sqrt)",
     ]
-    jit_cases = []
     for inp in corpus_cases():
         ctx.hit("corpus")
         judge(ctx, mesh_from_input(inp), inp.get("tag", "corpus"))
-    for rep in range(ctx.n(2, 12)):
+    for rep in range(ctx.n(2, 40)):
         for m in stream(ctx.rng, big=(ctx.thorough or ctx.escalate)):
-            r = judge(ctx, m, m.kind)
-            if r is not None and m.n_node <= 40 and len(jit_cases) < ctx.n(14, 60) and ctx.rng.random() < 0.5:
-                jit_cases.append((mesh_input(m, m.kind), r[1]))
+            judge(ctx, m, m.kind)
     sample_file(ctx)
-    jit_off_pass(ctx, jit_cases)
 
 
 def replay(ctx, rp):
@@ -451,7 +471,5 @@ def replay(ctx, rp):
         sample_file(ctx)
         return
     m = mesh_from_input(inp)
-    r = judge(ctx, m, inp.get("tag", "replay"), data="data_centre" in inp)
-    if inp.get("jit") == "off" and r is not None:
-        jit_off_pass(ctx, [(mesh_input(m, "replay"), r[1])])
+    judge(ctx, m, inp.get("tag", "replay"), data="data_centre" in inp, forced=inp if "data_centre" in inp else None)
 
